@@ -340,6 +340,9 @@ impl Property for C08 {
     fn components(&self) -> serde_json::Value {
         crate::components_mac()
     }
+    fn coverage_extra(&self, tier: Tier, runs: u64) -> serde_json::Value {
+        serde_json::json!({ "bounded_depth_enumeration": super::enum_coverage(tier, runs) })
+    }
     fn budget(&self, tier: Tier) -> u64 {
         match tier {
             Tier::Quick => 1_500_000,
@@ -350,6 +353,10 @@ impl Property for C08 {
         // one run in five borrows another property"s generator (same case type), so that this oracle also
         // judges histories of shapes its own generator does not produce
         if let Some(c) = super::cross_generate("C08", &["C04", "C05", "C07", "C09", "C10"], seed, run, tier, avoid) {
+            return c;
+        }
+        // bounded-depth enumeration over the event alphabet
+        if let Some(c) = super::enum_generate("C08", run, tier) {
             return c;
         }
         self.own_generate(seed, run, tier, avoid)
